@@ -117,7 +117,7 @@ impl<T> DefList<T>
         }
         else
         {
-            Some(self.defs[item_ref.0].as_ref().unwrap())
+            self.defs[item_ref.0].as_ref()
         }
     }
 
